@@ -1,5 +1,189 @@
 import SmtpV.Model.Client
 import SmtpV.Spec.ClientMon
-/-! # C18 (theorems follow) -/
+import SmtpV.Proofs.ClientFrame
+/-!
+# C18 — LMTP client reports each recipient's own status, transaction after transaction
+
+Model level (`Client.C.call`, `Client.lmtpReplies`; tied to client.go by the `cconv` correspondence).
+Two halves: the client's recipient list is exactly the recipients accepted since the last accepted MAIL
+(so the second and later transactions start clean), and the reply loop of `Close` reads one reply per entry
+of that list, in order, handing each to the callback — or, without callback, keeping the first refusal as
+`Close`'s error.
+-/
 namespace SmtpV.Props.C18
+open SmtpV SmtpV.Client
+
+theorem showErr_smtp_ne (x : SErr) : showErr (some (.smtp x)) ≠ "nil" := by
+  intro h
+  have h' := congrArg String.toList h
+  simp only [showErr, String.toList_append, show (toString "se~") = "se~" from rfl] at h'
+  have : ("se~" : String).toList = ['s', 'e', '~'] := by decide
+  rw [this] at h'
+  simp at h'
+
+theorem showErr_nil (e : Option CErr) : showErr e = "nil" ↔ e = none := by
+  cases e with
+  | none => simp [showErr]
+  | some e =>
+    cases e with
+    | smtp x => simp [showErr_smtp_ne]
+    | other => simp [showErr]
+
+/-- **C18_mail_starts_clean.**  An accepted MAIL leaves no recipient of an earlier transaction behind; a MAIL that
+    is not accepted changes nothing. -/
+theorem C18_mail_starts_clean (c : C) (frm : Bytes) (o : Option MailOptions) :
+    ((c.call (.mail frm o)).2.res = "nil" → (c.call (.mail frm o)).1.rcpts = []) ∧
+    ((c.call (.mail frm o)).2.res ≠ "nil" → (c.call (.mail frm o)).1.rcpts = c.rcpts) := by
+  unfold C.call
+  simp only []
+  split
+  · simp [showErr]
+  · have hh := hello_rcpts { c with out := c.carry, carry := [] }
+    generalize C.hello { c with out := c.carry, carry := [] } = p1 at hh ⊢
+    obtain ⟨c1, e1⟩ := p1
+    simp only [] at hh
+    cases e1 with
+    | some e => simp [showErr_nil, hh]
+    | none =>
+      simp only []
+      split
+      · simp [showErr, hh]
+      · rename_i l _
+        have h1 := cmd_rcpts c1 250 l
+        generalize C.cmd c1 250 l = p2 at h1 ⊢
+        obtain ⟨c2, r2⟩ := p2
+        simp only [] at h1
+        cases r2 <;> simp [showErr_nil, rrErr, h1, hh]
+
+/-- **C18_rcpt_appends.**  An accepted RCPT appends that recipient; a refused one changes nothing. -/
+theorem C18_rcpt_appends (c : C) (to : Bytes) (o : Option RcptOptions) :
+    ((c.call (.rcpt to o)).2.res = "nil" → (c.call (.rcpt to o)).1.rcpts = c.rcpts ++ [to]) ∧
+    ((c.call (.rcpt to o)).2.res ≠ "nil" → (c.call (.rcpt to o)).1.rcpts = c.rcpts) := by
+  unfold C.call
+  simp only []
+  split
+  · simp [showErr]
+  · rename_i l _
+    have h1 := cmd_rcpts { c with out := c.carry, carry := [] } 25 l
+    generalize C.cmd { c with out := c.carry, carry := [] } 25 l = p2 at h1 ⊢
+    obtain ⟨c2, r2⟩ := p2
+    simp only [] at h1
+    cases r2 <;> simp [showErr_nil, rrErr, h1]
+
+/-- **C18_reset_clears.**  An accepted RSET empties the list; a failed one changes nothing. -/
+theorem C18_reset_clears (c : C) :
+    ((c.call .reset).2.res = "nil" → (c.call .reset).1.rcpts = []) ∧
+    ((c.call .reset).2.res ≠ "nil" → (c.call .reset).1.rcpts = c.rcpts) := by
+  unfold C.call
+  simp only []
+  have hh := hello_rcpts { c with out := c.carry, carry := [] }
+  generalize C.hello { c with out := c.carry, carry := [] } = p1 at hh ⊢
+  obtain ⟨c1, e1⟩ := p1
+  simp only [] at hh
+  cases e1 with
+  | some e => simp [showErr_nil, hh]
+  | none =>
+    simp only []
+    have h1 := cmd_rcpts c1 250 "RSET".b
+    generalize C.cmd c1 250 "RSET".b = p2 at h1 ⊢
+    obtain ⟨c2, r2⟩ := p2
+    simp only [] at h1
+    cases r2 <;> simp [showErr_nil, rrErr, h1, hh]
+
+/-! ### the reply loop of `Close` -/
+
+/-- the recipient a callback entry is about -/
+def cbRcpt (entry : String) : String := (entry.splitOn "=").headD ""
+
+/-- **C18_one_callback_per_recipient.**  With a callback, the loop produces callback entries for a prefix of the
+    recipient list, in order, one each — the whole list unless reading a reply failed (connection trouble),
+    in which case `Close` reports an error. -/
+theorem C18_one_callback_per_recipient (rcpts : List Bytes) : ∀ (c : C) (first : Option CErr) (cbs : List String),
+    ∃ k, k ≤ rcpts.length ∧
+      (lmtpReplies rcpts c true first cbs).2.2.length = cbs.length + k ∧
+      (lmtpReplies rcpts c true first cbs).2.2.take cbs.length = cbs ∧
+      (k = rcpts.length ∨ (lmtpReplies rcpts c true first cbs).2.1 = some .other) ∧
+      ∀ i, i < k → ∃ e, (lmtpReplies rcpts c true first cbs).2.2[cbs.length + i]? = some e ∧
+        ∃ r, rcpts[i]? = some r ∧ ∃ v, e = hexOfBytes r ++ "=" ++ v := by
+  induction rcpts with
+  | nil => intro c first cbs; exact ⟨0, by simp [lmtpReplies]⟩
+  | cons r rest ih =>
+    intro c first cbs
+    simp only [lmtpReplies]
+    generalize c.read 250 = p
+    obtain ⟨c1, rr⟩ := p
+    cases rr with
+    | ok code msg =>
+      simp only [if_true]
+      obtain ⟨k, hk, hlen, htake, hall, hidx⟩ := ih c1 first (cbs ++ [hexOfBytes r ++ "=nil"])
+      refine ⟨k + 1, by simp; omega, by simp at hlen ⊢; omega, ?_, ?_, ?_⟩
+      · have := congrArg (List.take cbs.length) htake
+        simpa [List.take_take, Nat.min_eq_left (Nat.le_succ _)] using this
+      · rcases hall with h | h
+        · left; simp [h]
+        · right; exact h
+      · intro i hi
+        cases i with
+        | zero =>
+          have h0 : ((lmtpReplies rest c1 true first (cbs ++ [hexOfBytes r ++ "=nil"])).2.2.take (cbs.length + 1))[cbs.length]? =
+              some (hexOfBytes r ++ "=nil") := by
+            have : (cbs ++ [hexOfBytes r ++ "=nil"]).length = cbs.length + 1 := by simp
+            rw [← this, htake]; simp
+          refine ⟨hexOfBytes r ++ "=nil", ?_, r, by simp, "nil", by simp [String.append_assoc]⟩
+          rw [List.getElem?_take] at h0
+          simpa using h0
+        | succ i =>
+          obtain ⟨e, he, r', hr', v, hv⟩ := hidx i (by omega)
+          refine ⟨e, ?_, r', by simpa using hr', v, hv⟩
+          have : (cbs ++ [hexOfBytes r ++ "=nil"]).length + i = cbs.length + (i + 1) := by simp; omega
+          rw [← this]; exact he
+    | smtpErr e0 =>
+      simp only [if_true]
+      obtain ⟨k, hk, hlen, htake, hall, hidx⟩ :=
+        ih c1 first (cbs ++ [hexOfBytes r ++ "=" ++ showErr (some (.smtp e0))])
+      refine ⟨k + 1, by simp; omega, by simp at hlen ⊢; omega, ?_, ?_, ?_⟩
+      · have := congrArg (List.take cbs.length) htake
+        simpa [List.take_take, Nat.min_eq_left (Nat.le_succ _)] using this
+      · rcases hall with h | h
+        · left; simp [h]
+        · right; exact h
+      · intro i hi
+        cases i with
+        | zero =>
+          have h0 : ((lmtpReplies rest c1 true first (cbs ++ [hexOfBytes r ++ "=" ++ showErr (some (.smtp e0))])).2.2.take
+              (cbs.length + 1))[cbs.length]? = some (hexOfBytes r ++ "=" ++ showErr (some (.smtp e0))) := by
+            have : (cbs ++ [hexOfBytes r ++ "=" ++ showErr (some (.smtp e0))]).length = cbs.length + 1 := by simp
+            rw [← this, htake]; simp
+          refine ⟨_, ?_, r, by simp, showErr (some (.smtp e0)), rfl⟩
+          rw [List.getElem?_take] at h0
+          simpa using h0
+        | succ i =>
+          obtain ⟨e, he, r', hr', v, hv⟩ := hidx i (by omega)
+          refine ⟨e, ?_, r', by simpa using hr', v, hv⟩
+          have : (cbs ++ [hexOfBytes r ++ "=" ++ showErr (some (.smtp e0))]).length + i = cbs.length + (i + 1) := by
+            simp; omega
+          rw [← this]; exact he
+    | proto => exact ⟨0, by simp⟩
+    | io => exact ⟨0, by simp⟩
+
+/-- **C18_refusal_not_lost.**  Without a callback a refusal of any recipient after DATA is `Close`'s error: if
+    `Close` reports success, every reply that was read was positive. -/
+theorem C18_refusal_not_lost (rcpts : List Bytes) : ∀ (c : C) (first : Option CErr) (cbs : List String),
+    (lmtpReplies rcpts c false first cbs).2.1 = none → first = none := by
+  induction rcpts with
+  | nil => intro c first cbs h; simpa [lmtpReplies] using h
+  | cons r rest ih =>
+    intro c first cbs h
+    simp only [lmtpReplies] at h
+    generalize c.read 250 = p at h
+    obtain ⟨c1, rr⟩ := p
+    cases rr with
+    | ok code msg => exact ih c1 first _ (by simpa using h)
+    | smtpErr e0 =>
+      simp only [Bool.false_eq_true, if_false] at h
+      have := ih c1 _ cbs h
+      cases first <;> simp_all
+    | proto => simp at h
+    | io => simp at h
+
 end SmtpV.Props.C18
